@@ -10,9 +10,21 @@
   as int64 or uint64 by range, and refuse (never wrap) everything outside [-2^63, 2^64).
   String unescaping and the structural state machine are not yet proved against the
   specification.
+
+  JSON PARSER REFINEMENT (namespace `SF.PropsJsonP.C04`): for every grammatical JSON text (grammar
+  `J` of SF/Proofs/JsonGrammar.lean: any nesting, any white space) whose tokens denote
+  (`J.sem`: every string token is accepted by the RFC 8259 reference lexer, every number token
+  denotes) `Parse` returns no error and delivers EXACTLY the events of the text, which build its
+  value; the same for streams of documents and for EVERY chunking.  Tokens: every RFC 8259
+  string token is unquoted to the reference lexer's value (escapes, `\uXXXX`, surrogate pairs,
+  UTF-8; the two places where the lenient mirror differs from the reference — it accepts `\'`
+  and passes ill-formed UTF-8 through — are kernel-checked examples in JsonRefineTop.lean);
+  every integer literal is delivered as exactly that integer (int64 / uint64 by range,
+  `numberOverflow` outside [-2^63, 2^64)); floats relative to the strconv model.
 -/
 import SF.Json.Parse
 import SF.Json.Cst
+import SF.Proofs.JsonRefineTop
 namespace SF.Props.C04
 open SF SF.Json SF.Json.Parse SF.Json.Float
 
@@ -157,3 +169,50 @@ example : (reportNumber (Parse.init none) (strBytes "18446744073709551615") fals
   decide +kernel
 
 end SF.Props.C04
+
+/-! ## JSON parser refinement (SF/Json/Parse.lean; proofs SF/Proofs/JsonRefine*.lean) -/
+
+namespace SF.PropsJsonP.C04
+open SF SF.Json SF.Json.Parse SF.Json.Float SF.Json.ParseP SF.Json.Grammar
+open SF.Json.RefineTop
+
+/-- C04: EVERY grammatical JSON text whose tokens denote, with any white space around it: no
+error, exactly the text's events (containers with length -1, keys, scalars), whose `build` is
+the text's value -/
+theorem json_reads_value (v : J) (hok : v.ok = true) (hs : v.sem = true) (ws1 ws2 : Bytes) (h1 : allWs ws1 = true)
+    (h2 : allWs ws2 = true) :
+    (parse {} (ws1 ++ (v.wire ++ ws2))).2 = none ∧
+    events (parse {} (ws1 ++ (v.wire ++ ws2))).1 = v.events ∧
+    build (events (parse {} (ws1 ++ (v.wire ++ ws2))).1) = some v.value :=
+  SF.Json.RefineTop.json_reads_value v hok hs ws1 ws2 h1 h2
+
+/-- … streams of documents … -/
+theorem json_reads_stream (ds : List Doc) (hd : ∀ d ∈ ds, d.good) (ws0 : Bytes) (h0 : allWs ws0 = true) :
+    (parse {} (ws0 ++ streamWire ds)).2 = none ∧
+    events (parse {} (ws0 ++ streamWire ds)).1 = streamEvents ds ∧
+    buildAll (events (parse {} (ws0 ++ streamWire ds)).1) = some (ds.map (fun d => d.1.value)) :=
+  SF.Json.RefineTop.json_reads_stream ds hd ws0 h0
+
+/-- … and the same however the bytes are cut into `Write` calls -/
+theorem json_reads_stream_chunks (ds : List Doc) (hd : ∀ d ∈ ds, d.good) (ws0 : Bytes) (h0 : allWs ws0 = true)
+    (cs : List Bytes) (hcs : cs.flatten = ws0 ++ streamWire ds) :
+    (writeChunks {} cs).2 = none ∧ events (writeChunks {} cs).1 = streamEvents ds :=
+  SF.Json.RefineTop.json_reads_stream_chunks ds hd ws0 h0 cs hcs
+
+/-- strings: every RFC 8259 string token is unquoted to the value the reference lexer assigns -/
+theorem rfc_string_value (raw : Bytes) (h : Enc.isJsonString (0x22 :: (raw ++ [0x22])) = true) :
+    ∃ s, strVal raw = some s ∧ unquote raw = .ok s :=
+  SF.Json.RefineTop.rfc_string_value raw h
+
+/-- integers: every RFC 8259 integer literal that the parser reports is reported as exactly the
+integer the reference lexer reads -/
+theorem integer_value_ref (tok : Bytes) (hrfc : Enc.isJsonInt tok = true) (ev : Ev) (h : numEv tok = some ev) :
+    ∃ k v, ev = .num k v ∧ ∀ rest, Enc.EndOk rest → Cst.lexNumber (tok ++ rest) = .ok (.int v, false, rest) :=
+  SF.Json.RefineTop.integer_value_ref tok hrfc ev h
+
+/-- every number token that denotes is reported as its denotation -/
+theorem number_value (p : P) (tok : Bytes) (ev : Ev) (h : numEv tok = some ev) :
+    reportNumber p tok (isDblTok tok) = visit p ev :=
+  SF.Json.RefineTop.number_value p tok ev h
+
+end SF.PropsJsonP.C04
